@@ -750,8 +750,8 @@ func (b *BlockCtx) buildV1(t AbsTx) (types.Transaction, error) {
 		txn.ArbitraryData = [][]byte{buf.Bytes()}
 	}
 	for _, sg := range signers {
-		if sg.auth == "nosig" {
-			continue
+		if sg.auth == "nosig" || (sg.name == "Z" && sg.auth == "ok") {
+			continue // unlock conditions that require no signature get none (one would be redundant)
 		}
 		txn.Signatures = append(txn.Signatures, types.TransactionSignature{ParentID: sg.parent, PublicKeyIndex: 0, CoveredFields: types.CoveredFields{WholeTransaction: true}})
 	}
@@ -880,8 +880,7 @@ func (b *BlockCtx) buildV2(t AbsTx) (types.V2Transaction, error) {
 			} else {
 				// the block at the proof height does not exist yet: the best an early prover can do is the tip
 				tip := s.Store.CIE[s.CS.Index.Height]
-				sp.ProofIndex = tip.Copy()
-				sp.ProofIndex.ChainIndex.Height = fc.ProofHeight
+				sp.ProofIndex = tip.Copy() // the genuine element of the tip, whose height is below the proof height
 				idx := s.CS.StorageProofLeafIndex(fc.Filesize, tip.ChainIndex.ID, p.ID)
 				sp.Leaf, sp.Proof = s.proof(fc.Filesize, idx, r.Pf)
 			}
@@ -923,7 +922,7 @@ func (b *BlockCtx) buildV2(t AbsTx) (types.V2Transaction, error) {
 	h := s.CS.InputSigHash(txn)
 	for _, ia := range ins {
 		var sigs []types.Signature
-		if ia.auth != "nosig" {
+		if ia.auth != "nosig" && !(ia.owner == "Z" && ia.auth == "ok") {
 			sig := s.K.SK(ia.owner).SignHash(h)
 			if ia.auth == "badsig" {
 				sig[9] ^= 8
